@@ -14,8 +14,6 @@ def register(R):
     R.contract(TR + "_err_details_to_string", assumed=True, params={"test": "any", "err": "any", "details": "any"}, returns="str", pure=True)
     R.contract("testtools.content:TracebackContent.__init__", assumed=True,
                params={"err": "any", "test": "any", "capture_locals": "any"}, modifies=["self.content_type", "self._get_bytes"])
-    R.contract("testtools.content:text_content", assumed=True, params={"text": "any"}, returns="Content", pure=True,
-               ensures=["not allocated(result)"])
     UNCH = ["listof(self.%s) == old(listof(self.%s))" % (l, l) for l in ("errors", "failures", "unexpectedSuccesses")]
     STOP = "self.shouldStop == (True if old(self.failfast) else old(self.shouldStop))"
 
